@@ -44,6 +44,13 @@ CLAUSE_DEV = {}
 for _k, _v in DEVIATIONS.items():
     CLAUSE_DEV.setdefault(_v["inv"], []).append(_k)
 
+_COMMIT = ["match_is_follower_last_index", "stale_term_ae_response", "same_term_ae_clears_vote"]
+ATTRIBUTION = {     # group -> (clauses, the only registered deviations that can break them)
+    "election": (["ElectionSafety"], ["same_term_ae_clears_vote"]),
+    "future": (["FutureTruth"], ["future_keyed_by_index_only"]),
+    "commit": (["LogMatching", "LeaderCompleteness", "StateMachineSafety"], _COMMIT),
+}
+
 SITES = {
     "same_term_ae_clears_vote": "raft.py:_handle_append_entries/_step_down",
     "match_is_follower_last_index": "raft.py:_handle_append_entries (match_index=last_index)",
@@ -116,14 +123,12 @@ def model_check(chk, tier, known):
         c = consts(d["n"], [dev], d["term"], d["log"], d["ops"], d["msgs"], toseq=d["toseq"],
                    guide=d.get("guide", "NoGuide"))
         jobs.append(("dev:" + dev,) + job("dev_" + dev, c, invs=CLAUSES, props=(), workers=max(2, nw // 2)))
-    # attribution: with every known deviation but d switched on, d's clause holds
+    # attribution rule used by classify(): a clause can only be broken by "its" deviations - with all the
+    # other registered deviations switched on the clause still holds (bounded check)
     if tier != "quick":
-        for dev in known:
-            if dev in DEVIATIONS and "guide" not in DEVIATIONS[dev]:
-                d = DEVIATIONS[dev]
-                c = consts(d["n"], [k for k in known if k != dev], d["term"], d["log"], d["ops"], d["msgs"],
-                           toseq=d["toseq"])
-                jobs.append(("attr:" + dev,) + job("attr_" + dev, c, invs=[d["inv"]], props=()))
+        for nm, (invs, culprits) in ATTRIBUTION.items():
+            c = consts(3, [k for k in known if k not in culprits], 3, 1, 2, 2, toseq=(1, 2, 1))
+            jobs.append(("attr:" + nm,) + job("attr_" + nm, c, invs=invs, props=()))
     # random deep behaviours of the 5-node design model (simulation mode), safety clauses only
     if tier != "quick":
         c = consts(5, [], 4, 3, 4, 10)
@@ -152,10 +157,10 @@ def model_check(chk, tier, known):
             chk.sensitivity[dev] = res.violated
             cex[dev] = res.trace
         elif kind.startswith("attr:"):
-            dev = kind[5:]
-            chk.add_tlc(f"RaftImpl Dev=known-{{{dev}}}", res, count=False,
-                        note=f"attribution: {DEVIATIONS[dev]['inv']} holds without {dev}")
-            chk.require(res.ok, f"{DEVIATIONS[dev]['inv']} fails without {dev}: attribution map is wrong")
+            invs, culprits = ATTRIBUTION[kind[5:]]
+            chk.add_tlc(f"RaftImpl Dev=registered minus {culprits}", res, count=False,
+                        note=f"attribution: {invs} hold without {culprits}")
+            chk.require(res.ok, f"{res.violated} fails without {culprits}: attribution rule is wrong")
         else:
             chk.add_tlc(f"RaftImpl fault-free Progress ({kind[5:]})", res)
             chk.require(res.ok, f"fault-free progress fails in the model ({kind}): {res.violated}")
